@@ -5,6 +5,7 @@ package main
 // natively, applies the known-findings list, writes evidence and replay files.
 
 import (
+	"regexp"
 	"encoding/json"
 	"flag"
 	"fmt"
@@ -17,6 +18,8 @@ import (
 	"strings"
 	"time"
 )
+
+var objNum = regexp.MustCompile(`#[0-9]+`)
 
 type HarnessSpec struct {
 	Name       string
@@ -214,7 +217,7 @@ func cmdCheck(args []string) int {
 				rep.Blocked[h.Name+": "+p.Detail]++
 				// the harness body itself can never continue (every call it makes is one the
 				// property says returns): a deadlock of the code under test
-				p.Violations = append(p.Violations, Violation{Key: "assert:E:deadlock: the harness blocks forever in " + firstLine(p.Detail), Detail: "no thread can run and the harness body is blocked: " + p.Detail})
+				p.Violations = append(p.Violations, Violation{Key: "assert:E:deadlock: the harness blocks forever in " + objNum.ReplaceAllString(firstLine(p.Detail), ""), Detail: "no thread can run and the harness body is blocked: " + p.Detail})
 			case "budget", "cut":
 				rep.Cuts[h.Name+": "+p.Detail]++
 			case "engine-error":
@@ -320,17 +323,21 @@ func cmdCheck(args []string) int {
 				names = append(names, n)
 			}
 			sort.Strings(names)
+			deadInc := 0
 			for _, n := range names {
 				for v := 0; v <= dom[n]; v++ {
 					if !alive[n][v] && !h.DeadOK[fmt.Sprintf("%s=%d", n, v)] {
 						if incomplete {
-							rep.Lines = append(rep.Lines, fmt.Sprintf("INCONCLUSIVE: property=%s %s: alternative %s=%d never runs to the end of the harness, but some paths left the supported fragment", id, h.Name, n, v))
+							deadInc++
 						} else {
 							rep.Violations = append(rep.Violations, &ViolationReport{Key: fmt.Sprintf("%s:vacuity:choice %s=%d", h.Name, n, v), Harness: h.Name,
 								Detail: fmt.Sprintf("alternative %s=%d never runs to the end of the harness: everything asserted about it holds vacuously", n, v), Confirmed: "symbolic-trace"})
 						}
 					}
 				}
+			}
+			if deadInc > 0 {
+				rep.Lines = append(rep.Lines, fmt.Sprintf("INCONCLUSIVE: property=%s %s: %d alternative(s) never run to the end of the harness, but some paths left the supported fragment", id, h.Name, deadInc))
 			}
 		}
 		for _, r := range h.Reach {
